@@ -46,6 +46,13 @@ var c09Ops = []string{
 	"findall(X-Y, (retract(p(X)), retract(p(Y))), L)",
 	"findall(X, (retract(p(X)), retractall(p(_))), L)",
 	"findall(X, (retract(p(X)), X == 1, assertz(p(1))), L)",
+	"findall(X, (retract(p(X)), abolish(p/1)), L)",
+	"findall(X, (retract(p(X)), abolish(p/1), assertz(p(7))), L)",
+	// clauses with a disjunctive body whose variables occur only in a later alternative, asserted and retracted
+	// within one query (the stored term must not share variables with the asserting query)
+	"assertz((p(5) :- (q(0) ; q(Z)))), Z = 2, findall(B, retract((p(5) :- B)), L)",
+	"assertz((p(5) :- (q(0) ; q(Z)))), findall(Z, retract((p(5) :- (q(0) ; q(1)))), L)",
+	"assertz((p(5) :- (q(0) ; q(Z)))), q(Z), findall(B, clause(p(5), B), L)",
 	// several insertions at the front per solution of an open retract / from a nested enumeration
 	"findall(X, (retract(p(X)), asserta(p(8)), asserta(p(9))), L)",
 	"findall(X-Y, (retract(p(X)), member(Y, [5, 6]), asserta(p(Y))), L)",
@@ -216,7 +223,7 @@ func verdictOf(res []h.StepResult, first int, inconc bool) string {
 func init() {
 	h.Register(&h.Check{
 		ID: "C09",
-		Rule: "explicit-state BFS over database histories: 6 initial states of two dynamic predicates p/1, q/1 (empty, single, several, duplicates, clause with a variable, facts mixed with a rule) x an alphabet of 42 operations (asserta/assertz incl. bindings made before/after, retract first/all/by pattern, retractall, abolish, calls, and updates issued inside an open call, an open clause/2 and an open retract/1, each run to exhaustion under findall so that what the open goal saw is recorded); the same for family B (a binary predicate r/2: non-linear and aliased patterns) and family C (a predicate of arity 0, whose duplicate facts are equal atoms, and one term instance asserted several times through a variable, 26 operations); all histories up to depth U without merging, then merged by key (model database state, last operation) up to depth D. Non-trivial/distinct = distinct (model state, last op).",
+		Rule: "explicit-state BFS over database histories: 6 initial states of two dynamic predicates p/1, q/1 (empty, single, several, duplicates, clause with a variable, facts mixed with a rule) x an alphabet of 47 operations (asserta/assertz incl. bindings made before/after, retract first/all/by pattern, retractall, abolish, calls, and updates issued inside an open call, an open clause/2 and an open retract/1, each run to exhaustion under findall so that what the open goal saw is recorded); the same for family B (a binary predicate r/2: non-linear and aliased patterns) and family C (a predicate of arity 0, whose duplicate facts are equal atoms, and one term instance asserted several times through a variable, 26 operations); all histories up to depth U without merging, then merged by key (model database state, last operation) up to depth D. Non-trivial/distinct = distinct (model state, last op).",
 		Explanation: "state = contents and order of p/1 and q/1 in the reference model; transition = one operation executed on the REAL interpreter (the history is replayed on a fresh instance) and on the reference with generation-free logical update view (call-time snapshots); after every transition the operation's answers/error and the full listing of both predicates (clause/2) plus the answers of p(X) are compared",
 		Assumptions: []string{"reference: ISO 7.5.4 logical update view - a call, clause/2 and retract/1 enumerate the snapshot taken when they were called; retract succeeds once per matching snapshot clause (ISO 8.9.3.4 example) and removes it if still present", "abolish/retractall of a procedure that does not exist are not stated by the property and end the branch as inconclusive"},
 		Work:        c09Work,
